@@ -156,29 +156,54 @@ theorem getCursor_ok {b : Bytes} {p : PB} (h : WFV b p) : getCursor p = .ok (p.o
 theorem remaining_ok {b : Bytes} {p : PB} (h : WFV b p) : remaining p = .ok (p.stop - p.ofs) := by
   simp [remaining, h.2.1]
 
+theorem absV_ofs (b : Bytes) (p : PB) (o : Nat) :
+    absV b { p with ofs := o } = { absV b p with cur := o - p.start } := by
+  simp [absV, win]
+
+/-- A method that returns `r` and moves the absolute cursor to `o` refines the copy's method
+    that returns `r` and moves the relative cursor to `o - start`. -/
+theorem Refines.of_eq {m : Meth} {b : Bytes} {p : PB} (h : WFV b p) (r : Res Out) (o : Nat)
+    (e1 : run m b p = (r, { p with ofs := o }))
+    (e2 : arun m (absV b p) = (r, { absV b p with cur := o - p.start }))
+    (ho : p.start ≤ o ∧ o ≤ p.stop) : Refines m b p := by
+  constructor
+  · rw [e1, e2]
+  · rw [e1, e2]; exact absV_ofs b p o
+  · rw [e1]; exact ⟨ho.1, ho.2, h.2.2⟩
+  · rw [e1]
+  · rw [e1]
+  · rw [e1]
+
+/-- the same when nothing moves -/
+theorem Refines.of_eq_same {m : Meth} {b : Bytes} {p : PB} (h : WFV b p) (r : Res Out)
+    (e1 : run m b p = (r, p)) (e2 : arun m (absV b p) = (r, absV b p)) : Refines m b p :=
+  Refines.of_eq h r p.ofs e1 e2 ⟨h.1, h.2.1⟩
+
 theorem refines_simple (b : Bytes) (p : PB) (h : WFV b p) (m : Meth)
     (hm : m = .size ∨ m = .remaining ∨ m = .getCursor ∨ m = .peek ∨ m = .buf) : Refines m b p := by
   have hw := win_length h
   obtain ⟨h1, h2, h3⟩ := h
   have h' : WFV b p := ⟨h1, h2, h3⟩
   rcases hm with rfl | rfl | rfl | rfl | rfl
-  · constructor <;> simp [run, arun, size_ok h', Res.map, absV, hw, h']
-  · constructor <;> simp [run, arun, remaining_ok h', Res.map, absV, hw, h']; omega
-  · constructor <;> simp [run, arun, getCursor_ok h', Res.map, absV, hw, h']
+  · exact Refines.of_eq_same h' (.ok (.nat (p.stop - p.start)))
+      (by simp [run, size_ok h', Res.map]) (by simp [arun, absV, hw])
+  · exact Refines.of_eq_same h' (.ok (.nat (p.stop - p.ofs)))
+      (by simp [run, remaining_ok h', Res.map]) (by simp [arun, absV, hw]; omega)
+  · exact Refines.of_eq_same h' (.ok (.nat (p.ofs - p.start)))
+      (by simp [run, getCursor_ok h', Res.map]) (by simp [arun, absV])
   · by_cases hlt : p.ofs < p.stop
     · have hb : p.ofs < b.length := by omega
       have e := win_getElem? h' hlt
       rw [List.getElem?_eq_getElem hb] at e
-      constructor <;> simp [run, arun, hlt, List.getElem?_eq_getElem hb, absV, e, h']
+      exact Refines.of_eq_same h' (.ok (.obyte (some b[p.ofs])))
+        (by simp [run, hlt, List.getElem?_eq_getElem hb]) (by simp [arun, absV, e])
     · have hn : (win b p)[p.ofs - p.start]? = none := by
         apply List.getElem?_eq_none; rw [hw]; omega
-      constructor <;> simp [run, arun, hlt, absV, hn, h']
+      exact Refines.of_eq_same h' (.ok (.obyte none))
+        (by simp [run, hlt]) (by simp [arun, absV, hn])
   · have e := rest_eq h'
-    constructor <;> simp [run, arun, slice_ok h2 h3, Res.map, absV, e, h']
-
-theorem absV_ofs (b : Bytes) (p : PB) (o : Nat) :
-    absV b { p with ofs := o } = { absV b p with cur := o - p.start } := by
-  simp [absV, win]
+    exact Refines.of_eq_same h' (.ok (.bytes ((b.drop p.ofs).take (p.stop - p.ofs))))
+      (by simp [run, slice_ok h2 h3, Res.map]) (by simp [arun, absV, e])
 
 theorem refines_cursor (b : Bytes) (p : PB) (h : WFV b p) (m : Meth)
     (hm : (∃ k, m = .setCursor k) ∨ m = .incr ∨ m = .decr ∨ (∃ k, m = .checkCursor k)
@@ -188,31 +213,172 @@ theorem refines_cursor (b : Bytes) (p : PB) (h : WFV b p) (m : Meth)
   have h' : WFV b p := ⟨h1, h2, h3⟩
   rcases hm with ⟨k, rfl⟩ | rfl | rfl | ⟨k, rfl⟩ | ⟨k, rfl⟩ | rfl | rfl
   · by_cases hk : k ≤ p.stop - p.start
-    · constructor <;> simp [run, arun, size_ok h', absV_ofs, hw, hk, WFV] <;> (try simp [absV]) <;> omega
-    · constructor <;> simp [run, arun, size_ok h', hw, hk, h'] <;> simp [absV, hw, hk]
+    · exact Refines.of_eq h' (.ok .unit) (p.start + k)
+        (by simp [run, size_ok h', hk]) (by simp [arun, absV, hw, hk]) (by omega)
+    · exact Refines.of_eq_same h' (.err .eob)
+        (by simp [run, size_ok h', hk]) (by simp [arun, absV, hw, hk])
   · by_cases hk : p.ofs < p.stop
     · have hk' : p.ofs - p.start < p.stop - p.start := by omega
-      constructor <;> simp [run, arun, absV_ofs, hw, hk, WFV] <;> (try simp [absV, hw, hk']) <;> omega
+      exact Refines.of_eq h' (.ok .unit) (p.ofs + 1)
+        (by simp [run, hk]) (by simp [arun, absV, hw, hk']; omega) (by omega)
     · have hk' : ¬ (p.ofs - p.start < p.stop - p.start) := by omega
-      constructor <;> simp [run, arun, hw, hk, h'] <;> simp [absV, hw, hk']
+      exact Refines.of_eq_same h' (.err .eob) (by simp [run, hk]) (by simp [arun, absV, hw, hk'])
   · by_cases hk : p.ofs > p.start
     · have hk' : 0 < p.ofs - p.start := by omega
-      constructor <;> simp [run, arun, absV_ofs, hw, hk, WFV] <;> (try simp [absV, hw, hk']) <;> omega
+      exact Refines.of_eq h' (.ok .unit) (p.ofs - 1)
+        (by simp [run, hk]) (by simp [arun, absV, hk']; omega) (by omega)
     · have hk' : ¬ (0 < p.ofs - p.start) := by omega
-      constructor <;> simp [run, arun, hw, hk, h'] <;> simp [absV, hw, hk']
-  · constructor <;> simp [run, arun, size_ok h', hw, h'] <;> simp [absV, hw]
+      exact Refines.of_eq_same h' (.err .eob) (by simp [run, hk]) (by simp [arun, absV, hk'])
+  · exact Refines.of_eq_same h' (.ok (.bool (decide (k < p.stop - p.start))))
+      (by simp [run, size_ok h']) (by simp [arun, absV, hw])
   · by_cases hk : k ≤ p.stop - p.start
-    · constructor <;> simp [run, arun, size_ok h', absV_ofs, hw, hk, WFV] <;> (try simp [absV]) <;> omega
-    · constructor <;> simp [run, arun, size_ok h', hw, hk, h'] <;> simp [absV, hw, hk]
+    · exact Refines.of_eq h' (.ok .unit) (p.start + k)
+        (by simp [run, size_ok h', hk]) (by simp [arun, absV, hw, hk]) (by omega)
+    · exact Refines.of_eq_same h' (.panic "assert")
+        (by simp [run, size_ok h', hk]) (by simp [arun, absV, hw, hk])
   · by_cases hk : p.ofs < p.stop
     · have hk' : p.ofs - p.start < p.stop - p.start := by omega
-      constructor <;> simp [run, arun, absV_ofs, hw, hk, WFV] <;> (try simp [absV, hw, hk']) <;> omega
+      exact Refines.of_eq h' (.ok .unit) (p.ofs + 1)
+        (by simp [run, hk]) (by simp [arun, absV, hw, hk']; omega) (by omega)
     · have hk' : ¬ (p.ofs - p.start < p.stop - p.start) := by omega
-      constructor <;> simp [run, arun, hw, hk, h'] <;> simp [absV, hw, hk']
+      exact Refines.of_eq_same h' (.panic "assert") (by simp [run, hk]) (by simp [arun, absV, hw, hk'])
   · by_cases hk : p.ofs > p.start
     · have hk' : 0 < p.ofs - p.start := by omega
-      constructor <;> simp [run, arun, absV_ofs, hw, hk, WFV] <;> (try simp [absV, hw, hk']) <;> omega
+      exact Refines.of_eq h' (.ok .unit) (p.ofs - 1)
+        (by simp [run, hk]) (by simp [arun, absV, hk']; omega) (by omega)
     · have hk' : ¬ (0 < p.ofs - p.start) := by omega
-      constructor <;> simp [run, arun, hw, hk, h'] <;> simp [absV, hw, hk']
+      exact Refines.of_eq_same h' (.panic "assert") (by simp [run, hk]) (by simp [arun, absV, hk'])
+
+theorem rest_length {b : Bytes} {p : PB} (h : WFV b p) :
+    ((win b p).drop (p.ofs - p.start)).length = p.stop - p.ofs := by
+  rw [List.length_drop, win_length h]; have := h.1; have := h.2.1; omega
+
+theorem refines_parse (b : Bytes) (p : PB) (h : WFV b p) (m : Meth)
+    (hm : (∃ t, m = .checkPrefix t) ∨ (∃ t, m = .allowed t) ∨ (∃ t, m = .until_ t)
+      ∨ (∃ t, m = .exact t) ∨ (∃ n, m = .extract n)) : Refines m b p := by
+  have hw := win_length h
+  have hr := rest_eq h
+  have hrl := rest_length h
+  obtain ⟨h1, h2, h3⟩ := h
+  have h' : WFV b p := ⟨h1, h2, h3⟩
+  rcases hm with ⟨t, rfl⟩ | ⟨t, rfl⟩ | ⟨t, rfl⟩ | ⟨t, rfl⟩ | ⟨n, rfl⟩
+  · exact Refines.of_eq_same h' (.ok (.bool (t.isPrefixOf ((win b p).drop (p.ofs - p.start)))))
+      (by simp [run, slice_ok h2 h3, hr]) (by simp [arun, absV])
+  · have hl := takeWhile_length_le (fun x => t.contains x) ((win b p).drop (p.ofs - p.start))
+    rw [hrl] at hl
+    exact Refines.of_eq h' (.ok (.bytes (((win b p).drop (p.ofs - p.start)).takeWhile (fun x => t.contains x))))
+      (p.ofs + (((win b p).drop (p.ofs - p.start)).takeWhile (fun x => t.contains x)).length)
+      (by simp [run, slice_ok h2 h3, hr, collect_true])
+      (by simp [arun, absV]; omega) (by omega)
+  · have hl := takeWhile_length_le (fun x => !t.contains x) ((win b p).drop (p.ofs - p.start))
+    rw [hrl] at hl
+    exact Refines.of_eq h' (.ok (.bytes (((win b p).drop (p.ofs - p.start)).takeWhile (fun x => !t.contains x))))
+      (p.ofs + (((win b p).drop (p.ofs - p.start)).takeWhile (fun x => !t.contains x)).length)
+      (by simp [run, slice_ok h2 h3, hr, collect_false])
+      (by simp [arun, absV]; omega) (by omega)
+  · by_cases hp : t.isPrefixOf ((win b p).drop (p.ofs - p.start)) = true
+    · have hl := isPrefixOf_length_le hp
+      rw [hrl] at hl
+      exact Refines.of_eq h' (.ok (.bool true)) (p.ofs + t.length)
+        (by simp [run, getCursor_ok h', slice_ok h2 h3, hr, hp])
+        (by simp [arun, absV, hp]; omega) (by omega)
+    · exact Refines.of_eq_same h' (.err .guard)
+        (by simp [run, getCursor_ok h', slice_ok h2 h3, hr, hp])
+        (by simp [arun, absV, hp])
+  · by_cases hn : p.stop - p.ofs < n
+    · have hn' : p.stop - p.start - (p.ofs - p.start) < n := by omega
+      exact Refines.of_eq_same h' (.err .eob)
+        (by simp [run, remaining_ok h', getCursor_ok h', hn])
+        (by simp [arun, absV, hw, hn'])
+    · have hn' : ¬ (p.stop - p.start - (p.ofs - p.start) < n) := by omega
+      have hs : slice b p.ofs (p.ofs + n) = .ok ((b.drop p.ofs).take n) := by
+        rw [slice_ok (by omega) (by omega)]; congr 2; omega
+      have e : (b.drop p.ofs).take n = ((win b p).drop (p.ofs - p.start)).take n := by
+        rw [← hr, List.take_take]; congr 1; omega
+      exact Refines.of_eq h' (.ok (.bytes (((win b p).drop (p.ofs - p.start)).take n))) (p.ofs + n)
+        (by simp [run, remaining_ok h', hn, hs, e])
+        (by simp [arun, absV, hw, hn']; omega) (by omega)
+
+theorem nWindows_eq (len n : Nat) : nWindows len n = len + 1 - n := by
+  unfold nWindows; split <;> omega
+
+theorem refines_scan (b : Bytes) (p : PB) (h : WFV b p) (t : Bytes) : Refines (.scan t) b p := by
+  have hw := win_length h
+  have hr := rest_eq h
+  have hrl := rest_length h
+  obtain ⟨h1, h2, h3⟩ := h
+  have h' : WFV b p := ⟨h1, h2, h3⟩
+  by_cases ht : t.length = 0
+  · exact Refines.of_eq_same h' (.panic "windows(0)")
+      (by simp [run, getCursor_ok h', slice_ok h2 h3, ht]) (by simp [arun, ht])
+  · have hloop : scanLoop t ((win b p).drop (p.ofs - p.start))
+          (nWindows ((win b p).drop (p.ofs - p.start)).length t.length) 0
+        = (List.range (((win b p).drop (p.ofs - p.start)).length + 1 - t.length)).find?
+            (fun k => t.isPrefixOf (((win b p).drop (p.ofs - p.start)).drop k)) := by
+      rw [scanLoop_eq, nWindows_eq, List.range_eq_range']
+    cases hf : (List.range (((win b p).drop (p.ofs - p.start)).length + 1 - t.length)).find?
+            (fun k => t.isPrefixOf (((win b p).drop (p.ofs - p.start)).drop k)) with
+    | none =>
+      exact Refines.of_eq_same h' (.err .eob)
+        (by simp only [run, getCursor_ok h', slice_ok h2 h3, hr, ht, if_false, hloop, hf])
+        (by simp only [arun, absV, ht, if_false, hf])
+    | some k =>
+      have hk := find?_some_lt hf
+      rw [hrl] at hk
+      have e : p.ofs - p.start + k = p.ofs + k - p.start := by omega
+      exact Refines.of_eq h' (.ok (.nat k)) (p.ofs + k)
+        (by simp only [run, getCursor_ok h', slice_ok h2 h3, hr, ht, if_false, hloop, hf])
+        (by simp only [arun, absV, ht, if_false, hf, e]) (by omega)
+
+theorem refines_bscan (b : Bytes) (p : PB) (h : WFV b p) (t : Bytes) : Refines (.bscan t) b p := by
+  have hw := win_length h
+  have hbf := before_eq h
+  obtain ⟨h1, h2, h3⟩ := h
+  have h' : WFV b p := ⟨h1, h2, h3⟩
+  have hsl : slice b p.start p.ofs = .ok ((win b p).take (p.ofs - p.start)) := by
+    rw [slice_ok h1 (by omega), hbf]
+  have hlen : ((win b p).take (p.ofs - p.start)).length = p.ofs - p.start := by
+    rw [List.length_take, hw]; omega
+  by_cases ht : t.length = 0
+  · exact Refines.of_eq_same h' (.panic "windows(0)")
+      (by simp [run, getCursor_ok h', hsl, ht]) (by simp [arun, ht])
+  · cases hf : (List.range (p.ofs - p.start + 1 - t.length)).reverse.find?
+            (fun j => t.isPrefixOf (((win b p).take (p.ofs - p.start)).drop j)) with
+    | none =>
+      exact Refines.of_eq_same h' (.err .eob)
+        (by simp only [run, getCursor_ok h', hsl, ht, if_false, bscanLoop_eq, nWindows_eq, hlen, hf, Option.map])
+        (by simp only [arun, absV, ht, if_false, hf])
+    | some j =>
+      have hj := find?_rev_some_lt hf
+      have e : 1 + (p.ofs - p.start + 1 - t.length - 1 - j) + t.length - 1 = p.ofs - p.start - j := by omega
+      have hle : p.ofs - p.start - j ≤ p.ofs := by omega
+      exact Refines.of_eq h' (.ok (.nat (p.ofs - p.start - j))) (p.ofs - (p.ofs - p.start - j))
+        (by simp only [run, getCursor_ok h', hsl, ht, if_false, bscanLoop_eq, nWindows_eq, hlen, hf, Option.map, e, hle, if_true])
+        (by simp only [arun, absV, ht, if_false, hf]; congr 2; omega) (by omega)
+
+/-- Every `ParseBufferT` method on a well-formed buffer behaves like the same method on the
+    copy of its window (same result, commuting abstraction), keeps the buffer well-formed and
+    moves nothing but the cursor. -/
+theorem run_refines (m : Meth) (b : Bytes) (p : PB) (h : WFV b p) : Refines m b p := by
+  cases m with
+  | size => exact refines_simple b p h _ (by simp)
+  | remaining => exact refines_simple b p h _ (by simp)
+  | getCursor => exact refines_simple b p h _ (by simp)
+  | peek => exact refines_simple b p h _ (by simp)
+  | buf => exact refines_simple b p h _ (by simp)
+  | setCursor k => exact refines_cursor b p h _ (by simp)
+  | incr => exact refines_cursor b p h _ (by simp)
+  | decr => exact refines_cursor b p h _ (by simp)
+  | checkCursor k => exact refines_cursor b p h _ (by simp)
+  | setCursorU k => exact refines_cursor b p h _ (by simp)
+  | incrU => exact refines_cursor b p h _ (by simp)
+  | decrU => exact refines_cursor b p h _ (by simp)
+  | checkPrefix t => exact refines_parse b p h _ (by simp)
+  | allowed t => exact refines_parse b p h _ (by simp)
+  | until_ t => exact refines_parse b p h _ (by simp)
+  | scan t => exact refines_scan b p h t
+  | bscan t => exact refines_bscan b p h t
+  | exact t => exact refines_parse b p h _ (by simp)
+  | extract n => exact refines_parse b p h _ (by simp)
 
 end Parsley.C17
